@@ -2,3 +2,6 @@ import RaftWal.Props.C01
 #print axioms RaftWal.C01.acked_survive_restart
 #print axioms RaftWal.C01.acked_survive_torn_write
 #print axioms RaftWal.C01.visible_only_after_sync
+#print axioms RaftWal.C01.entries_survive_any_crash
+#print axioms RaftWal.C01.acked_append_survives_any_crash
+#print axioms RaftWal.C01.protocol_init
